@@ -113,7 +113,7 @@ const HARNESSES: &[(&str, &[&str])] = &[
     ("crdt_vectorclock", &["calm", "moderate", "chaos"]),
     ("multi_node", &["broadcast3", "broadcast5_loss30", "partitioned5_rf3", "partitioned5_rf3_loss30", "partitioned8_rf3_loss20_delay30", "partitioned5_rf2_loss30_heal"]),
     ("partition", &["isolate", "split_brain", "asymmetric", "ring"]),
-    ("core_dst", &["calm", "chaos", "default_skew"]),
+    ("core_dst", &["calm", "chaos", "default_skew", "max_time_500"]),
     ("redis_dst", &["calm", "moderate", "chaos"]),
     ("streaming", &["calm", "moderate", "chaos"]),
     ("compaction", &["calm", "aggressive", "chaos"]),
@@ -124,6 +124,15 @@ const HARNESSES: &[(&str, &[&str])] = &[
     ("io_sim", &["calm", "moderate", "chaos"]),
     // RedisDSTSimulation::with_key_distribution / new_uniform with NON-preset parameters
     ("redis_dst_dist", &["zipf_1000_1.004", "zipf_1000_0.995", "zipf_999_1.3", "zipf_50_0.7", "zipf_1001_1.0", "uniform_500"]),
+    // coverage audit: the public batch drivers and their summaries
+    ("batch", &["dst_batches", "crdt_batches", "core_batch", "redis_dst_batch", "partition_batch", "wal_batch", "streaming_batches"]),
+    // CrashSimulator driven directly (register / maybe_crash / crash / recover / checkpoint / state loss)
+    ("crash_sim", &["default", "lossy"]),
+    // ZipfianGenerator driven directly, sizes 1 .. 100 000
+    ("zipf", &["1_1.0", "2_0.5", "1000_1.0", "1024_0.99", "100000_1.2"]),
+    // size boundaries: > max_keys_per_sync keys through anti-entropy, pipelines across the 8 KiB
+    // connection buffers, WAL files of 64 B .. 64 KiB, long runs
+    ("big", &["multi_node_heal_999keys", "multi_node_heal_1000keys", "multi_node_heal_1001keys", "multi_node_heal_1200keys", "multi_node_full_anti_entropy", "connection_8k_boundary", "connection_64k_values", "wal_tiny_files", "wal_64k_files_1000_writes", "executor_3000_ops", "streaming_600_ops"]),
 ];
 
 // ---- time dilation inside the worker ("stall" mode) ------------------------------------
@@ -224,10 +233,12 @@ fn fault_preset_of(h: &str, p: &str) -> Option<&'static str> {
     match h {
         "core_dst" | "redis_dst" | "io_sim" => Some(name(p)),
         "redis_dst_dist" => Some("moderate"),
+        "crash_sim" => Some("chaos"),
+        "batch" if p == "core_batch" || p == "redis_dst_batch" => Some("chaos"),
         _ => None,
     }
 }
-const SYNC_KINDS: &[&str] = &["executor", "list", "set", "hash", "sorted_set", "transaction", "crdt_gcounter", "crdt_orset", "multi_node", "partition", "core_dst", "redis_dst", "redis_dst_dist", "wal", "connection", "scenario", "event_sim", "io_sim"];
+const SYNC_KINDS: &[&str] = &["crash_sim", "zipf", "executor", "list", "set", "hash", "sorted_set", "transaction", "crdt_gcounter", "crdt_orset", "multi_node", "partition", "core_dst", "redis_dst", "redis_dst_dist", "wal", "connection", "scenario", "event_sim", "io_sim"];
 
 fn presets_of(h: &str) -> &'static [&'static str] {
     HARNESSES.iter().find(|(k, _)| *k == h).map(|(_, ps)| *ps).unwrap_or(&[])
@@ -665,7 +676,8 @@ fn worker(harness: &str, preset: &str, seed: u64) -> String {
         }
         "core_dst" => {
             use redis_sim::simulator::dst::*;
-            let cfg = match preset { "calm" => DSTConfig::calm(seed), "chaos" => DSTConfig::chaos(seed), _ => DSTConfig::new(seed).with_nodes(5).with_clock_skew(true) };
+            // max_time_500: the run ends at the virtual-time limit, not at the step count
+            let cfg = match preset { "calm" => DSTConfig::calm(seed), "chaos" => DSTConfig::chaos(seed), "max_time_500" => DSTConfig::new(seed).with_max_time(500), _ => DSTConfig::new(seed).with_nodes(5).with_clock_skew(true) };
             let mut sim = DSTSimulation::with_config(cfg);
             let mut trace = String::new();
             for i in 0..300 {
@@ -911,11 +923,296 @@ fn worker(harness: &str, preset: &str, seed: u64) -> String {
             let st = buggify::get_stats();
             writeln!(o, "buggify checks={} triggers={} next_rng={}", sorted_map(st.checks.iter()), sorted_map(st.triggers.iter()), rng.next_u64()).unwrap();
         }
+        "batch" => batch_worker(&mut o, preset, seed),
+        "crash_sim" => {
+            use redis_sim::buggify::{self, FaultConfig};
+            use redis_sim::io::simulation::SimulatedRng;
+            use redis_sim::io::Rng as IoRng;
+            use redis_sim::simulator::crash::{CrashConfig, CrashReason, CrashSimulator, OperationType, PendingOperation};
+            use redis_sim::simulator::{HostId, VirtualTime};
+            buggify::reset_stats();
+            buggify::set_config(FaultConfig::chaos());
+            let cfg = if preset == "lossy" { CrashConfig { base_crash_probability: 0.05, min_recovery_time_ms: 1, max_recovery_time_ms: 40, partial_state_loss_probability: 0.6, enable_buggify_crashes: true } } else { CrashConfig::default() };
+            let mut cs = CrashSimulator::with_config(cfg);
+            let mut rng = SimulatedRng::new(seed);
+            let n = 7usize;
+            for i in 0..n {
+                cs.register_node(HostId(i));
+            }
+            let mut t = 0u64;
+            for i in 0..250 {
+                stall_point(i);
+                t += rng.gen_range(1, 60);
+                let now = VirtualTime::from_millis(t);
+                let node = HostId(rng.gen_range(0, n as u64) as usize);
+                let what = match rng.gen_range(0, 6) {
+                    0 => format!("maybe_crash={}", cs.maybe_crash(&mut rng, node, now)),
+                    1 => {
+                        cs.crash_node(node, now, if rng.gen_bool(0.5) { CrashReason::BuggifyTriggered } else { CrashReason::OutOfMemory });
+                        String::from("crash_node")
+                    }
+                    2 => format!("start_recovery={:?}", cs.start_recovery(&mut rng, node, now).map(|s| (s.snapshot_time, s.last_ack_seq, s.pending_operations.len()))),
+                    3 => {
+                        let ops: Vec<PendingOperation> = (0..rng.gen_range(0, 5)).map(|k| PendingOperation { operation_id: i as u64 * 10 + k, operation_type: if k % 2 == 0 { OperationType::Write } else { OperationType::Gossip }, start_time: now, data: vec![k as u8; k as usize] }).collect();
+                        cs.checkpoint(node, now, vec![i as u8; (i % 5) as usize], ops, i as u64);
+                        String::from("checkpoint")
+                    }
+                    4 => match cs.get_latest_checkpoint(node).cloned() {
+                        Some(snap) => format!("state_loss={:?}", cs.simulate_state_loss(&mut rng, &snap)),
+                        None => String::from("state_loss=no-checkpoint"),
+                    },
+                    _ => format!("advance_time completed={:?}", cs.advance_time(now)),
+                };
+                let states: Vec<String> = (0..n).map(|k| format!("{:?}", cs.get_state(HostId(k)))).collect();
+                writeln!(o, "step[{}] t={} node={:?} {} crashed={:?} recovering={:?} states={:?}", i, t, node, what, cs.crashed_nodes(), cs.recovering_nodes(), states).unwrap();
+            }
+            let st = cs.stats().clone();
+            writeln!(o, "stats total_crashes={} total_recoveries={} by_reason={} state_loss={} avg_bits={:016x} next_rng={}", st.total_crashes, st.total_recoveries, sorted_map(st.crashes_by_reason.iter()), st.total_state_loss_events, st.average_recovery_time_ms.to_bits(), rng.next_u64()).unwrap();
+        }
+        "zipf" => {
+            use redis_sim::io::simulation::SimulatedRng;
+            use redis_sim::io::Rng as IoRng;
+            use redis_sim::simulator::dst_integration::ZipfianGenerator;
+            let mut it = preset.split('_');
+            let (nk, sk): (u64, f64) = (it.next().and_then(|x| x.parse().ok()).unwrap_or(10), it.next().and_then(|x| x.parse().ok()).unwrap_or(1.0));
+            let z = ZipfianGenerator::new(nk, sk);
+            let mut rng = SimulatedRng::new(seed);
+            let keys: Vec<u64> = (0..400).map(|_| z.sample(&mut rng)).collect();
+            writeln!(o, "samples {:?}", keys).unwrap();
+            writeln!(o, "keys {:?} next_rng={}", (0..20).map(|_| z.generate_key(&mut rng)).collect::<Vec<_>>(), rng.next_u64()).unwrap();
+        }
+        "big" => big_worker(&mut o, preset, seed),
         _ => {
             writeln!(o, "unknown harness").unwrap();
         }
     }
     o
+}
+
+/// the public batch drivers (`run_*_batch`, `BatchRunner`) and their summary functions
+fn batch_worker(o: &mut String, preset: &str, seed: u64) {
+    let base = seed % (u64::MAX - 16); // the drivers compute base_seed + i
+    match preset {
+        "dst_batches" => {
+            use redis_sim::redis::{executor_dst::*, hash_dst::*, list_dst::*, set_dst::*, sorted_set_dst::*, transaction_dst::*};
+            let r = run_executor_batch(base, 3, 120, ExecutorDSTConfig::new);
+            lines_of(o, "executor", &r);
+            writeln!(o, "{}", summarize_executor_batch(&r)).unwrap();
+            let r = run_list_batch(base, 3, 100, ListDSTConfig::high_churn);
+            lines_of(o, "list", &r);
+            writeln!(o, "{}", summarize_list_batch(&r)).unwrap();
+            let r = run_set_batch(base, 3, 100, SetDSTConfig::new);
+            lines_of(o, "set", &r);
+            writeln!(o, "{}", summarize_set_batch(&r)).unwrap();
+            let r = run_hash_batch(base, 3, 100, HashDSTConfig::new);
+            lines_of(o, "hash", &r);
+            writeln!(o, "{}", summarize_hash_batch(&r)).unwrap();
+            let r = run_sorted_set_batch(base, 3, 100, SortedSetDSTConfig::new);
+            lines_of(o, "zset", &r);
+            writeln!(o, "{}", redis_sim::redis::sorted_set_dst::summarize_batch(&r)).unwrap();
+            let r = run_transaction_batch(base, 3, 80, TransactionDSTConfig::high_conflict);
+            lines_of(o, "txn", &r);
+            writeln!(o, "{}", summarize_transaction_batch(&r)).unwrap();
+        }
+        "crdt_batches" => {
+            use redis_sim::replication::crdt_dst::*;
+            let mut all = Vec::new();
+            all.extend(run_gcounter_batch(base, 3, 60, CRDTDSTConfig::moderate));
+            all.extend(run_pncounter_batch(base, 3, 60, CRDTDSTConfig::chaos));
+            all.extend(run_orset_batch(base, 3, 60, CRDTDSTConfig::moderate));
+            all.extend(run_vectorclock_batch(base, 3, 60, CRDTDSTConfig::calm));
+            for (i, r) in all.iter().enumerate() {
+                writeln!(o, "crdt[{}] seed={} total={} ops_per_replica={} syncs={} dropped={} converged={} violations={:?}", i, r.seed, r.total_operations, sorted_map(r.ops_per_replica.iter()), r.syncs_performed, r.messages_dropped, r.converged, r.invariant_violations).unwrap();
+            }
+            writeln!(o, "{}", redis_sim::replication::crdt_dst::summarize_batch(&all)).unwrap();
+        }
+        "core_batch" => {
+            use redis_sim::simulator::dst::*;
+            let r = BatchRunner::new(base, 4).with_config(DSTConfig::chaos(0)).run_default(80);
+            writeln!(o, "{:?}\n{}", r, r.summary()).unwrap();
+            let mut log = Vec::new();
+            let r2 = BatchRunner::new(base, 3).run_sequential(40, |sim| {
+                let n = sim.random_running_node();
+                sim.advance_time(17);
+                log.push(format!("{:?} t={:?} id={}", n, sim.current_time(), sim.next_op_id()));
+            });
+            writeln!(o, "{:?} all_passed={} hooks={:?}", r2, r2.all_passed(), log).unwrap();
+        }
+        "redis_dst_batch" => {
+            use redis_sim::buggify::FaultConfig;
+            let r = redis_sim::simulator::dst_integration::run_redis_dst_batch(base, 3, 50, FaultConfig::chaos());
+            writeln!(o, "{:?}\n{}", r, r.summary()).unwrap();
+        }
+        "partition_batch" => {
+            use redis_sim::simulator::partition_tests::*;
+            fn iso(n: usize) -> PartitionConfig {
+                PartitionConfig::isolate_node(1, n)
+            }
+            let r = run_partition_test_batch("audit", 4 + (seed % 3) as usize, iso, 4);
+            writeln!(o, "{:?}\n{} all_converged={}", r, r.summary(), r.all_converged()).unwrap();
+        }
+        "wal_batch" => {
+            use redis_sim::streaming::wal_dst::*;
+            let r = run_wal_dst_batch(base..base + 4, WalDSTConfig::chaos());
+            lines_of(o, "wal", &r);
+            writeln!(o, "{}", summarize_wal_dst_batch(&r)).unwrap();
+        }
+        _ => {
+            let rt = tokio::runtime::Builder::new_current_thread().enable_all().start_paused(true).build().unwrap();
+            let (a, b) = rt.block_on(async {
+                (
+                    redis_sim::streaming::dst::run_dst_batch(base, 3, 60, redis_sim::streaming::dst::StreamingDSTConfig::moderate).await,
+                    redis_sim::streaming::compaction_dst::run_compaction_dst_batch(base, 3, 60, redis_sim::streaming::compaction_dst::CompactionDSTConfig::chaos).await,
+                )
+            });
+            lines_of(o, "streaming", &a);
+            writeln!(o, "{}", redis_sim::streaming::dst::summarize_batch(&a)).unwrap();
+            lines_of(o, "compaction", &b);
+            writeln!(o, "{}", redis_sim::streaming::compaction_dst::summarize_compaction_batch(&b)).unwrap();
+        }
+    }
+}
+
+/// size boundaries of constants on the simulation paths
+fn big_worker(o: &mut String, preset: &str, seed: u64) {
+    let mut w = ChaCha8Rng::seed_from_u64(seed ^ 0xB16B_16B1);
+    match preset {
+        p if p.starts_with("multi_node_heal_") => {
+            // AntiEntropyConfig::max_keys_per_sync = 1000: after the first heal node 2 holds all
+            // nkeys keys, so the second sync carries limit-1, limit, limit+1, 1.2 x limit keys
+            let nkeys: usize = p["multi_node_heal_".len()..].trim_end_matches("keys").parse().unwrap_or(1200);
+            let mut sim = MultiNodeSimulation::new(3, seed);
+            sim.partition(0, 2);
+            sim.partition(1, 2);
+            for i in 0..nkeys {
+                let node = if i % 3 == 2 { 2 } else { i % 2 };
+                sim.execute(0, node, Command::set(format!("k{}", i), SDS::from_str(&format!("v{}_{}", i, w.gen_range(0..10)))));
+                if i % 100 == 0 {
+                    sim.advance_time_ms(10);
+                    sim.gossip_round();
+                }
+            }
+            for _ in 0..3 {
+                sim.advance_time_ms(12);
+                sim.gossip_round();
+            }
+            // class predicate of the known finding C20-anti-entropy-over-limit, from the state
+            // before each sync: a side of the healed pair holds more keys than one sync may carry
+            let limit = redis_sim::replication::anti_entropy::AntiEntropyConfig::default().max_keys_per_sync;
+            let mut over = false;
+            for (a, b) in [(0usize, 2usize), (1, 2)] {
+                let held: Vec<usize> = [a, b].iter().map(|n| sim.nodes[*n].replica_state.replicated_keys.len()).collect();
+                over |= held.iter().any(|k| *k > limit);
+                writeln!(o, "heal {}-{}: keys held {:?} (max_keys_per_sync={})", a, b, held, limit).unwrap();
+                sim.heal_partition(a, b);
+            }
+            writeln!(o, "#class anti_entropy_over_limit={}", over).unwrap();
+            for _ in 0..3 {
+                sim.advance_time_ms(12);
+                sim.gossip_round();
+            }
+            sim.execute(0, 2, Command::set("after".into(), SDS::from_str("x")));
+            sim.converge(5);
+            for (i, node) in sim.nodes.iter().enumerate() {
+                let rk: BTreeMap<&String, String> = node.replica_state.replicated_keys.iter().map(|(k, v)| (k, serde_json::to_value(v).map(|j| j["timestamp"].to_string()).unwrap_or_default())).collect();
+                writeln!(o, "node[{}] clock={} keys={} stamps={:?}", i, node.replica_state.lamport_clock.time, rk.len(), rk).unwrap();
+            }
+            writeln!(o, "syncs={} queue_left={} next_rng={}", sim.anti_entropy_syncs, sim.message_queue.len(), sim.rng.next_u64()).unwrap();
+        }
+        "multi_node_full_anti_entropy" => {
+            let mut sim = MultiNodeSimulation::new_without_anti_entropy(4, seed).with_packet_loss(0.5).with_message_delay(0, 0);
+            sim.partition(0, 3);
+            for i in 0..60 {
+                sim.execute(0, i % 4, Command::set(format!("k{}", i % 25), SDS::from_str(&format!("v{}", i))));
+                if i % 7 == 0 {
+                    sim.advance_time_ms(3);
+                    sim.gossip_round();
+                }
+            }
+            sim.heal_partition(0, 3);
+            sim.run_full_anti_entropy();
+            let deltas = sim.nodes[0].get_all_deltas();
+            let mut keys: Vec<&String> = deltas.iter().map(|d| &d.key).collect();
+            keys.sort(); // get_all_deltas lists a map
+            writeln!(o, "syncs={} all_deltas={:?} count_gossip={:?}", sim.anti_entropy_syncs, keys, sim.count_gossip_messages(&deltas)).unwrap();
+            for k in 0..25 {
+                let key = format!("k{}", k);
+                writeln!(o, "{} = {:?} converged={}", key, sim.get_all_values(&key), sim.check_key_convergence(&key)).unwrap();
+            }
+            for (i, node) in sim.nodes.iter().enumerate() {
+                let dg = node.generate_digest();
+                writeln!(o, "node[{}] clock={} digest root={} keys={} max_ts={}", i, node.replica_state.lamport_clock.time, dg.root_hash, dg.key_count, dg.max_timestamp).unwrap();
+            }
+        }
+        "connection_8k_boundary" | "connection_64k_values" => {
+            use redis_sim::simulator::connection::*;
+            // parse_buffer / response_buffer start at 8192 bytes: pipelines whose encoding ends
+            // at 8191, 8192, 8193 bytes and beyond; values of 64 KiB
+            let mut conn = SimulatedConnection::new(seed).with_partial_reads(0.4);
+            let sizes: Vec<usize> = if preset.contains("64k") { vec![65535, 65536, 65537, 1 << 20] } else { vec![8100, 8150, 8191 - 40, 8192 - 40, 8193 - 40, 16384, 3] };
+            for (round, sz) in sizes.iter().enumerate() {
+                stall_point(round);
+                let val = "x".repeat(*sz);
+                conn.send_pipeline(vec![Command::set(format!("k{}", round), SDS::from_str(&val)), Command::Get(format!("k{}", round)), Command::StrLen(format!("k{}", round)), Command::Ping(None)]);
+                let rs = if w.gen_bool(0.5) { conn.process() } else { conn.process_with_partial_arrivals(2) };
+                let shown: Vec<String> = rs.iter().map(|r| { let t = format!("{:?}", r); format!("{}..len{}", t.chars().take(40).collect::<String>(), t.len()) }).collect();
+                writeln!(o, "round[{}] size={} responses={:?}", round, sz, shown).unwrap();
+            }
+            writeln!(o, "flushes={} bytes_per_flush={:?} executed={} history={}", conn.flush_count(), conn.bytes_per_flush(), conn.commands_executed(), conn.history().len()).unwrap();
+            let mut rb = SimulatedReadBuffer::new(seed).with_partial_reads(0.7);
+            rb.queue_pipeline((0..40).map(|i| Command::set(format!("r{}", i), SDS::from_str(&"y".repeat(200 + i)))).collect());
+            rb.flush_n_to_buffer(17);
+            let mut reads = Vec::new();
+            while let Some(b) = rb.read() {
+                reads.push(b.len());
+                if reads.len() > 10_000 {
+                    break;
+                }
+            }
+            rb.flush_to_buffer();
+            while let Some(b) = rb.read() {
+                reads.push(b.len());
+                if reads.len() > 20_000 {
+                    break;
+                }
+            }
+            writeln!(o, "read_buffer chunks={:?} pending={} {}", reads, rb.pending_commands(), rb.pending_bytes()).unwrap();
+        }
+        "wal_tiny_files" | "wal_64k_files_1000_writes" => {
+            use redis_sim::streaming::wal_dst::*;
+            use redis_sim::streaming::wal_store::SimulatedWalStoreConfig;
+            let cfg = if preset == "wal_tiny_files" {
+                WalDSTConfig { num_writes: 130, max_file_size: 64, store_config: SimulatedWalStoreConfig::default(), simulate_crash: true, fsync_after_write: false }
+            } else {
+                WalDSTConfig { num_writes: 1000, max_file_size: 65536, store_config: SimulatedWalStoreConfig::high_chaos(), simulate_crash: true, fsync_after_write: true }
+            };
+            let r = WalDSTHarness::new(seed, cfg).run();
+            writeln!(o, "result {:?}", r).unwrap();
+        }
+        "executor_3000_ops" => {
+            use redis_sim::redis::executor_dst::*;
+            let mut h = ExecutorDSTHarness::new(ExecutorDSTConfig::chaos(seed));
+            h.run(3000);
+            let r = h.result();
+            writeln!(o, "verdict success={} summary={} last={:?}", r.is_success(), r.summary().replace('\n', " | "), r.last_op).unwrap();
+            lines_of(o, "violation", &r.invariant_violations);
+            dump_executor(o, "state", h.executor());
+        }
+        _ => {
+            use redis_sim::streaming::dst::*;
+            let cfg = StreamingDSTConfig::moderate(seed);
+            let rt = tokio::runtime::Builder::new_current_thread().enable_all().start_paused(true).build().unwrap();
+            let r = rt.block_on(async {
+                let mut h = StreamingDSTHarness::new(cfg).await;
+                h.run(600).await;
+                h.check_invariants().await;
+                h.into_result()
+            });
+            lines_of(o, "op", &r.history);
+            lines_of(o, "violation", &r.invariant_violations);
+            writeln!(o, "verdict success={} total={} flushes={} crashes={} store_stats={:?}", r.is_success(), r.total_operations, r.flushes, r.crashes, r.store_stats).unwrap();
+        }
+    }
 }
 
 fn print_sim_result(o: &mut String, r: &redis_sim::simulator::dst::SimulationResult) {
@@ -1164,7 +1461,9 @@ fn triple_of(seed: u64, dseeds: u64, idx: u64) -> Option<(String, String, u64)> 
     let (h, p) = *pairs.get(pi)?;
     // the first two seeds of every pair are the small literals the repo's own tests use;
     // the others derive from (seed, idx)
-    let s = if k < 2 { k * 41 + 1 } else { case_rng(seed, idx).gen_range(0..1_000_000_000u64) };
+    // the third is a u64 extreme (0, MAX, 2^63, around 2^32, ids equal mod 2^k); the others derive from (seed, idx)
+    const EXTREME: [u64; 8] = [0, u64::MAX, 1 << 63, 1 << 32, (1 << 32) + 1, u64::MAX - 1, (1 << 63) - 1, 64];
+    let s = if k < 2 { k * 41 + 1 } else if k == 2 { EXTREME[pi % 8] } else { case_rng(seed, idx).gen_range(0..1_000_000_000u64) };
     Some((h.to_string(), p.to_string(), s))
 }
 
@@ -1235,10 +1534,10 @@ fn spawn_worker(h: &str, p: &str, s: u64, mode: Dilation) -> String {
 }
 
 /// harnesses with a step loop the worker can stall in
-const STALLABLE: &[&str] = &["executor", "list", "set", "hash", "sorted_set", "transaction", "crdt_gcounter", "crdt_pncounter", "crdt_orset", "crdt_vectorclock", "multi_node", "core_dst", "redis_dst", "streaming", "compaction", "connection", "event_sim", "io_sim", "redis_dst_dist"];
+const STALLABLE: &[&str] = &["executor", "list", "set", "hash", "sorted_set", "transaction", "crdt_gcounter", "crdt_pncounter", "crdt_orset", "crdt_vectorclock", "multi_node", "core_dst", "redis_dst", "streaming", "compaction", "connection", "event_sim", "io_sim", "redis_dst_dist", "crash_sim"];
 /// harnesses that touch persistence, WAL, compaction, TTL/expiry, clock skew or BUGGIFY timing:
 /// every one of their triples gets the dilated runs (the others: a seeded quarter)
-const CLOCK_SENSITIVE: &[&str] = &["streaming", "compaction", "wal", "executor", "scenario", "redis_dst", "core_dst", "io_sim", "connection", "redis_dst_dist"];
+const CLOCK_SENSITIVE: &[&str] = &["streaming", "compaction", "wal", "executor", "scenario", "redis_dst", "core_dst", "io_sim", "connection", "redis_dst_dist", "batch", "crash_sim", "big"];
 
 fn first_diff(a: &str, b: &str) -> (usize, String, String) {
     let (la, lb): (Vec<&str>, Vec<&str>) = (a.lines().collect(), b.lines().collect());
@@ -1420,6 +1719,17 @@ fn main() {
         if args.only.is_some() {
             println!("triple case {}: harness={} preset={} seed={}\n---- process A ({} lines) ----\n{}", d.idx, d.h, d.p, d.s, d.a.lines().count(), d.a.lines().rev().take(12).collect::<Vec<_>>().into_iter().rev().collect::<Vec<_>>().join("\n"));
             println!("replay by hand: {} --role worker --harness {} --preset {} --hseed {}", std::env::current_exe().unwrap().display(), d.h, d.p, d.s);
+        }
+        let over_limit = d.a.contains("#class anti_entropy_over_limit=true");
+        if over_limit && (d.a != d.b || d.a != d.c || d.a != d.c2 || d.dil.iter().any(|(_, x)| *x != d.a) || d.hist.iter().any(|(_, x, _)| *x != d.a)) {
+            // known finding: which keys a sync carries beyond max_keys_per_sync is HashMap order
+            let other = [&d.b, &d.c, &d.c2].into_iter().chain(d.dil.iter().map(|(_, x)| x)).chain(d.hist.iter().map(|(_, x, _)| x)).find(|x| **x != d.a).unwrap();
+            let (ln, x, y) = first_diff(&d.a, other);
+            out.known("C20-anti-entropy-over-limit", d.idx, json!({"harness": d.h, "preset": d.p, "hseed": d.s, "line": ln, "process_a": x, "other_run": y}));
+            if args.only.is_some() {
+                println!("DIFFERENT (class anti_entropy_over_limit) at line {}:\n  A: {}\n  other: {}", ln, x, y);
+            }
+            continue;
         }
         if d.a != d.b {
             let (ln, x, y) = first_diff(&d.a, &d.b);
